@@ -1,0 +1,194 @@
+//go:build verif
+
+package bech32
+
+// Machine-checked contracts for this package (read by /verif/govc; comment-only, compiled only
+// with -tags verif). See /verif/DESIGN.md.
+//
+// Bytes and the 30-bit checksum state (uint32 in the specification functions) are bit vectors.
+// The specification functions are transcribed from BIP-173: CHARSET, the generator constants inside
+// pmstep, hrp_expand (pmhi / pmlo), verify_checksum (pmdata == 1) and create_checksum (pmfin).
+
+//@ props C04 C05
+
+//@ spec CHARSET() string = "qpzry9x8gf2tvdw0s3jn54khce6mua7l"
+//@ fun chardec(c byte) uint8 = ite(c == 'q', 0, ite(c == 'p', 1, ite(c == 'z', 2, ite(c == 'r', 3, ite(c == 'y', 4, ite(c == '9', 5, ite(c == 'x', 6, ite(c == '8', 7, ite(c == 'g', 8, ite(c == 'f', 9, ite(c == '2', 10, ite(c == 't', 11, ite(c == 'v', 12, ite(c == 'd', 13, ite(c == 'w', 14, ite(c == '0', 15, ite(c == 's', 16, ite(c == '3', 17, ite(c == 'j', 18, ite(c == 'n', 19, ite(c == '5', 20, ite(c == '4', 21, ite(c == 'k', 22, ite(c == 'h', 23, ite(c == 'c', 24, ite(c == 'e', 25, ite(c == '6', 26, ite(c == 'm', 27, ite(c == 'u', 28, ite(c == 'a', 29, ite(c == '7', 30, ite(c == 'l', 31, 255))))))))))))))))))))))))))))))))
+//@ spec wfenc(e *encoding) bool = forall(i, 0, 32, e.enc[i] == CHARSET()[i]) && forall(c, 0, 256, e.decMap[c] == chardec(byte(c)))
+//@ spec isupper(c byte) bool = 'A' <= c && c <= 'Z'
+//@ spec islower(c byte) bool = 'a' <= c && c <= 'z'
+//@ fun tolower(c byte) byte = ite(isupper(c), c + 32, c)
+//@ spec toupper(c byte) byte = ite(islower(c), c - 32, c)
+//@ spec ascii(s string) bool = forall(k, 0, len(s), s[k] < 128)
+//@ spec hasupper(s string) bool = exists(k, 0, len(s), isupper(s[k]))
+//@ spec haslower(s string) bool = exists(k, 0, len(s), islower(s[k]))
+
+//@ lemma chardec_is_charset_index(c byte)
+//@   repr byte uint32
+//@   ensures forall(i, 0, 32, chardec(CHARSET()[i]) == i)
+//@   ensures (chardec(c) == 255) == !exists(i, 0, 32, CHARSET()[i] == c)
+//@   ensures chardec(c) == 255 || chardec(c) < 32
+//@   ensures implies(c >= 128 || isupper(c) || c == '1' || c == 'b' || c == 'i' || c == 'o', chardec(c) == 255)
+
+//@ rec pmstep(chk uint32, v byte) uint32 = (((chk & 0x1ffffff) << 5) ^ uint32(v)) ^ ite((chk>>25)&1 != 0, uint32(0x3b6a57b2), uint32(0)) ^ ite((chk>>26)&1 != 0, uint32(0x26508e6d), uint32(0)) ^ ite((chk>>27)&1 != 0, uint32(0x1ea119fa), uint32(0)) ^ ite((chk>>28)&1 != 0, uint32(0x3d4233dd), uint32(0)) ^ ite((chk>>29)&1 != 0, uint32(0x2a1462b3), uint32(0))
+//@ rec pmod(vals []byte, n int) uint32 = ite(n <= 0, uint32(1), pmstep(pmod(vals, n-1), vals[n-1]))
+//@ rec pmhi(s string, n int) uint32 = ite(n <= 0, uint32(1), pmstep(pmhi(s, n-1), s[n-1]>>5))
+//@ rec pmlo(s string, n int) uint32 = ite(n <= 0, pmstep(pmhi(s, len(s)), 0), pmstep(pmlo(s, n-1), s[n-1]&31))
+//@ rec pmdata(s string, d []byte, n int) uint32 = ite(n <= 0, pmlo(s, len(s)), pmstep(pmdata(s, d, n-1), d[n-1]))
+//@ rec pmz(s string, d []byte, n int) uint32 = ite(n <= 0, pmdata(s, d, len(d)), pmstep(pmz(s, d, n-1), 0))
+//@ spec pmfin(s string, d []byte) uint32 = pmz(s, d, 6) ^ 1
+//@ spec expandsto(a []byte, s string) bool = forall(k, 0, len(s), a[k] == s[k]>>5 && a[len(s)+1+k] == s[k]&31) && a[len(s)] == 0
+
+//@ lemma pmstep_range(c uint32, v byte)
+//@   repr byte uint32
+//@   requires c < 1<<30
+//@   ensures  pmstep(c, v) < 1<<30
+
+//@ lemma pm_hi(a []byte, s string, n int)
+//@   repr byte uint32
+//@   requires forall(k, 0, len(s), a[k] == s[k]>>5)
+//@   requires 0 <= n && n <= len(s)
+//@   ensures  pmod(a, n) == pmhi(s, n)
+//@   induct n
+
+//@ lemma pm_lo(a []byte, s string, n int)
+//@   repr byte uint32
+//@   requires expandsto(a, s)
+//@   requires 0 <= n && n <= len(s)
+//@   use pm_hi(a, s, len(s))
+//@   ensures  pmod(a, len(s)+1+n) == pmlo(s, n)
+//@   induct n
+
+//@ lemma pm_data(a []byte, s string, d []byte, n int)
+//@   repr byte uint32
+//@   requires expandsto(a, s)
+//@   requires forall(k, 0, len(d), a[2*len(s)+1+k] == d[k])
+//@   requires 0 <= n && n <= len(d)
+//@   use pm_lo(a, s, len(s))
+//@   ensures  pmod(a, 2*len(s)+1+n) == pmdata(s, d, n)
+//@   induct n
+
+//@ lemma pm_z(a []byte, s string, d []byte, n int)
+//@   repr byte uint32
+//@   requires expandsto(a, s)
+//@   requires forall(k, 0, len(d), a[2*len(s)+1+k] == d[k])
+//@   requires forall(k, 0, 6, a[2*len(s)+1+len(d)+k] == 0)
+//@   requires 0 <= n && n <= 6
+//@   use pm_data(a, s, d, len(d))
+//@   ensures  pmod(a, 2*len(s)+1+len(d)+n) == pmz(s, d, n)
+//@   induct n
+
+//@ func newEncoding(charset string) (e *encoding)
+//@   repr byte uint32
+//@   requires charset == CHARSET()
+//@   ensures  wfenc(e)
+//@   panics   never
+//@   noframe
+
+//@ func (e *encoding) encode(src []uint8) (r string)
+//@   repr byte uint32
+//@   requires forall(k, 0, len(src), src[k] < 32)
+//@   ensures  len(r) == len(src)
+//@   ensures  forall(k, 0, len(src), r[k] == e.enc[src[k]])
+//@   panics   never
+//@   loop 1 invariant 0 <= i && i <= len(src) && len(dst) == i && forall(k, 0, i, dst[k] == e.enc[src[k]])
+
+//@ func (e *encoding) decode(src string) (dst []uint8, err error)
+//@   repr byte uint32
+//@   requires wfenc(e)
+//@   ensures  isnil(err) == forall(k, 0, len(src), chardec(src[k]) != 255)
+//@   ensures  implies(isnil(err), len(dst) == len(src) && forall(k, 0, len(src), dst[k] == chardec(src[k]) && dst[k] < 32))
+//@   ensures  implies(!isnil(err), is(err, ErrInvalidCharacter) && 0 <= len(dst) && len(dst) < len(src) && chardec(src[len(dst)]) == 255 && forall(k, 0, len(dst), chardec(src[k]) != 255))
+//@   panics   never
+//@   loop 1 invariant 0 <= i && i <= len(src) && len(dst) == len(src) && forall(k, 0, i, chardec(src[k]) != 255 && dst[k] == chardec(src[k]) && dst[k] < 32)
+
+//@ func bech32HrpExpand(s string) (r []byte)
+//@   repr byte uint32
+//@   requires len(s) <= 1<<60
+//@   ensures  len(r) == 2*len(s)+1
+//@   ensures  expandsto(r, s)
+//@   panics   never
+//@   loop 1 invariant 0 <= _i1 && _i1 <= len(s) && len(res) == _i1 && forall(k, 0, _i1, res[k] == s[k]>>5)
+//@   loop 2 invariant 0 <= _i2 && _i2 <= len(s) && len(res) == len(s)+1+_i2 && forall(k, 0, len(s), res[k] == s[k]>>5) && res[len(s)] == 0 && forall(k, 0, _i2, res[len(s)+1+k] == s[k]&31)
+
+//@ func bech32Polymod(values []byte) (r int)
+//@   repr byte uint32
+//@   bv chk b r
+//@   ensures  uint32(r) == pmod(values, len(values)) && 0 <= r && r < 1<<30
+//@   panics   never
+//@   loop 1 invariant 0 <= _i1 && _i1 <= len(values) && uint32(chk) == pmod(values, _i1) && 0 <= chk && chk < 1<<30
+
+//@ func bech32VerifyChecksum(hrp string, data []byte) (ok bool)
+//@   repr byte uint32
+//@   requires len(hrp) <= 1<<20 && len(data) <= 1<<20
+//@   let vals = arg(bech32Polymod, 1, 0)
+//@   use pm_data(vals, hrp, data, len(data))
+//@   ensures ok == (pmdata(hrp, data, len(data)) == 1)
+//@   panics  never
+
+//@ func bech32CreateChecksum(hrp string, blocks []byte) (res []byte)
+//@   repr byte uint32
+//@   bv polymod
+//@   requires len(hrp) <= 1<<20 && len(blocks) <= 1<<20
+//@   let vals = arg(bech32Polymod, 1, 0)
+//@   use pm_z(vals, hrp, blocks, 6)
+//@   ensures len(res) == 6
+//@   ensures forall(i, 0, 6, res[i] == byte((pmfin(hrp, blocks) >> (5*(5-i))) & 31))
+//@   panics  never
+
+//@ func isValidHRPChar(r rune) (ok bool)
+//@   repr byte uint32
+//@   ensures ok == (33 <= r && r <= 126)
+//@   panics  never
+
+//@ func firstUpper(s string) (r int)
+//@   repr byte uint32
+//@   requires ascii(s)
+//@   ensures  -1 <= r && r < len(s)
+//@   ensures  implies(r >= 0, isupper(s[r]) && forall(k, 0, r, !isupper(s[k])))
+//@   ensures  implies(r < 0, !hasupper(s))
+//@   panics   never
+//@   loop 1 invariant 0 <= i && i <= len(s) && len(lower) == len(s) && forall(k, 0, i, !isupper(s[k]))
+
+//@ func firstLower(s string) (r int)
+//@   repr byte uint32
+//@   requires ascii(s)
+//@   ensures  -1 <= r && r < len(s)
+//@   ensures  implies(r >= 0, islower(s[r]) && forall(k, 0, r, !islower(s[k])))
+//@   ensures  implies(r < 0, !haslower(s))
+//@   panics   never
+//@   loop 1 invariant 0 <= i && i <= len(s) && len(lower) == len(s) && forall(k, 0, i, !islower(s[k]))
+
+//@ func validateCase(s string) (err error)
+//@   repr byte uint32
+//@   requires ascii(s)
+//@   ensures  isnil(err) == !(hasupper(s) && haslower(s))
+//@   ensures  implies(!isnil(err), is(err, ErrMixedCase) && errtype(err, SyntaxError) && 0 <= err.Offset && err.Offset < len(s))
+//@   panics   never
+
+//@ spec hrpchars(s string, n int) bool = forall(k, 0, n, 33 <= s[k] && s[k] <= 126)
+//@ spec okstruct(s string, sep int) bool = len(s) <= 90 && sep >= 1 && sep+7 <= len(s) && hrpchars(s, sep) && forall(k, sep+1, len(s), s[k] < 128) && !(hasupper(s) && haslower(s)) && forall(k, 0, len(s)-sep-1, chardec(tolower(s[sep+1+k])) != 255)
+//@ spec lastone(s string, sep int) bool = -1 <= sep && sep < len(s) && (sep < 0 || s[sep] == '1') && forall(k, sep+1, len(s), s[k] != '1')
+
+//@ func Decode(s string) (hrp string, data []byte, err error)
+//@   repr byte uint32
+//@   opaque pmdata
+//@   let sep = ret(strings.LastIndex, 1, 0)
+//@   let lhrp = arg(bech32VerifyChecksum, 1, 0)
+//@   let d5 = arg(bech32VerifyChecksum, 1, 1)
+//@   let d5c = arg(base32.Decode, 1, 1)
+//@   ensures implies(len(s) <= 90, lastone(s, sep))
+//@   ensures implies(okstruct(s, sep), len(lhrp) == sep && forall(k, 0, sep, lhrp[k] == tolower(s[k])))
+//@   ensures implies(okstruct(s, sep), len(d5) == len(s)-sep-1 && forall(k, 0, len(d5), d5[k] == chardec(tolower(s[sep+1+k]))))
+//@   ensures implies(okstruct(s, sep) && pmdata(lhrp, d5, len(d5)) == 1, len(d5c) == len(d5)-6 && forall(k, 0, len(d5c), d5c[k] == d5[k]))
+//@   ensures isnil(err) == (okstruct(s, sep) && pmdata(lhrp, d5, len(d5)) == 1 && !base32.badlen(len(d5c)) && base32.padzero(d5c))
+//@   ensures implies(isnil(err), len(hrp) == sep && forall(k, 0, sep, hrp[k] == tolower(s[k])))
+//@   ensures implies(isnil(err), len(data) == len(d5c)*5/8)
+//@   ensures implies(isnil(err), forall(g, 0, len(d5c)/8, forall(m, 0, 5, data[5*g+m] == base32.unsymat(d5c, g, m))))
+//@   ensures implies(isnil(err), forall(m, 0, 5, implies(5*(len(d5c)/8)+m < len(data), data[5*(len(d5c)/8)+m] == base32.unsymat(d5c, len(d5c)/8, m))))
+//@   ensures implies(!isnil(err), len(hrp) == 0 && data == nil)
+//@   ensures implies(errtype(err, SyntaxError), 0 <= err.Offset && err.Offset < len(s))
+//@   ensures implies(len(s) > 90, is(err, ErrInvalidLength))
+//@   ensures implies(len(s) <= 90 && sep < 0, is(err, ErrMissingSeparator))
+//@   panics  never
+//@   loop 1 invariant 0 <= i && i <= hrpLen && forall(k, 0, i, 33 <= s[k] && s[k] <= 126)
+//@   loop 2 invariant hrpLen+1 <= i && i <= len(s) && forall(k, hrpLen+1, i, s[k] < 128)
